@@ -225,7 +225,7 @@ open Ufw.Lemmas.Slip (octets) in
 theorem emit_recv (p : Inst) (f : Frame) (rest : List SrcEv)
     (hsrc : p.src = octets (wire p.cfg.serial f) ++ rest)
     (wf : WellFormed (f.onTransport p.cfg.serial))
-    (hcap : 0 < p.cfg.B - p.cfg.F) (hal : p.al.script.head?.getD false = false)
+    (hal : p.al.script.head?.getD false = false)
     (hfit : (f.onTransport p.cfg.serial).octets.length ≤ p.cfg.B - p.cfg.F)
     (h64 : (f.onTransport p.cfg.serial).octets.length < 2 ^ 64) :
     ∃ h off,
@@ -247,7 +247,7 @@ theorem emit_recv (p : Inst) (f : Frame) (rest : List SrcEv)
     have := classify_octets _ wf
     rw [h0] at this
     simp [Ufw.Spec.Regp.classify] at this
-  obtain ⟨hmf, hsrc', hal', _, _, hreply⟩ := recv_stored p _ rest hch hcap hne hal hfit
+  obtain ⟨hmf, hsrc', hal', _, _, hreply⟩ := recv_stored p _ rest hch hne hal hfit
   have hv := Ufw.Props.C07.verdict_eq_spec (f.onTransport p.cfg.serial).octets
   rw [classify_octets _ wf] at hv
   rcases hpf : parse_frame (f.onTransport p.cfg.serial).octets with ⟨r, ho⟩
